@@ -11,7 +11,7 @@ cd "$(dirname "$0")/.."
 out=seeded_results.jsonl; : > $out
 ids="$@"; [ -n "$ids" ] || ids=$(ls seeded)
 for id in $ids; do
-  d=seeded/$id; [ -f $d/patch.diff ] || continue
+  d=$(pwd)/seeded/$id; [ -f $d/patch.diff ] || continue
   prop=${id%%-*}
   git -C "$R" checkout -q -- . 2>/dev/null
   if ! git -C "$R" apply $d/patch.diff 2>/dev/null; then echo "{\"id\":\"$id\",\"error\":\"patch does not apply\"}" >> $out; continue; fi
